@@ -5,7 +5,7 @@ Import ListNotations.
 Require Import Grist.Model.MetaCascade Grist.Proofs.MetaCascade_base Grist.Proofs.MetaCascade_inv
   Grist.Proofs.MetaCascade_rm
   Grist.Proofs.MetaCascade_add Grist.Proofs.MetaCascade_add2 Grist.Proofs.MetaCascade_add3
-  Grist.Proofs.MetaCascade_add4 Grist.Proofs.MetaCascade_add6 Grist.Proofs.MetaCascade_add7.
+  Grist.Proofs.MetaCascade_add4 Grist.Proofs.MetaCascade_add6 Grist.Proofs.MetaCascade_add7 Grist.Proofs.MetaCascade_sumd.
 Open Scope Z_scope.
 
 Lemma append_columns_inv : forall t kinds m,
@@ -30,7 +30,6 @@ Proof.
   intros name src gb gbkinds fkinds m m' t H. unfold add_summary_table in H.
   destruct (mem name (m_schema m) || mem name (map t_name (m_tables m))); [discriminate|].
   destruct (negb (Nat.eqb (length gb) (length gbkinds)) || negb (nodupb gb)); [discriminate|].
-  destruct (existsb _ (m_columns m)); [discriminate|].
   unfold add_section in H. cbv zeta in H. cbn [fst snd] in H. inversion H; subst m'. clear H.
   unfold set_tables, add_fields, set_fields, set_sections. cbn [m_sections]. apply incl_appl, incl_refl.
 Qed.
@@ -46,9 +45,8 @@ Proof.
   apply negb_false_iff in Es. apply andb_true_iff in Es. destruct Es as [Es Eg].
   apply mem_In in Es. apply cols_of_table_incl in Eg.
   destruct (rg_target r =? 0).
-  - destruct (add_summary_table_inv _ _ _ _ _ _ _ _ HI Es Eg H) as [J1 [J2 _]].
+  - destruct (add_summary_table_d_inv _ _ _ _ _ _ _ _ _ HI Es Eg H) as [J1 [J2 [_ Hs]]].
     split; [exact J1|]. split; [exact J2|].
-    pose proof (add_summary_table_sections _ _ _ _ _ _ _ _ H) as Hs.
     unfold sids in *. apply in_map_iff in Esec. destruct Esec as [s [E Hs0]]. apply in_map_iff. exists s.
     split; [exact E | apply Hs; exact Hs0].
   - destruct (mem (rg_target r) (tids m)) eqn:Et; [|discriminate]. apply mem_In in Et.
